@@ -276,6 +276,9 @@ func (m *Mast) flush(ctx context.Context) (string, error) {
 		return "", fmt.Errorf("no persistence mechanism set; set RemoteConfig.StoreImmutablePartsWith")
 	}
 	if m.root == nil {
+		// emptied by deletes: the empty version is what is persisted now, so
+		// the tree gets a clean empty top node again (see IsDirty)
+		m.root = emptyNodePointer(int(m.branchFactor))
 		return "", nil
 	}
 	node, err := m.load(ctx, m.root)
@@ -719,6 +722,10 @@ func (m *Mast) Clone(ctx context.Context) (Mast, error) {
 
 // IsDirty signifies that in-memory values have been Set() or merged that haven't been Save()d.
 func (m *Mast) IsDirty() bool {
+	if m.root == nil {
+		// only deleting the last entry leaves no top node at all
+		return true
+	}
 	if node, ok := m.root.(*mastNode); ok {
 		return node.dirty
 	}
